@@ -154,8 +154,10 @@ TypeOfF(L, e, T, fuel) ==
     [] e.type = "collect"    -> TypeOfF(L, e.rhs, TypeOfF(L, e.lhs, T, fuel), fuel)
     [] e.type \in {"union", "intersection", "difference"} ->
                                 LCA(L, TypeOfF(L, e.lhs, T, fuel), TypeOfF(L, e.rhs, T, fuel))
+    \* malc: the operand of '*' is applied again to what it reaches, so the source type must itself be of the
+    \* operand's target type; the closure then has that type (it covers the start asset as well)
     [] e.type = "transitive" -> LET t == TypeOfF(L, e.stepExpression, T, fuel) IN
-                                IF t = NONE \/ TypeOfF(L, e.stepExpression, t, fuel) = NONE THEN NONE ELSE LCA(L, T, t)
+                                IF t = NONE \/ ~IsSub(L, T, t) \/ TypeOfF(L, e.stepExpression, t, fuel) = NONE THEN NONE ELSE t
     [] e.type = "subType"    -> LET t == TypeOfF(L, e.stepExpression, T, fuel) IN
                                 IF t # NONE /\ e.subType \in AssetNames(L) /\ IsSub(L, e.subType, t)
                                 THEN e.subType ELSE NONE
@@ -181,7 +183,7 @@ WellFormed(L) ==
   /\ AcyclicInheritance(L)
   /\ \A i \in DOMAIN L.assocs :
         /\ L.assocs[i].lt \in AssetNames(L) /\ L.assocs[i].rt \in AssetNames(L)
-        /\ L.assocs[i].lf # L.assocs[i].rf \/ L.assocs[i].lt # L.assocs[i].rt
+        /\ L.assocs[i].lf # L.assocs[i].rf      \* the toolbox's data model keys an association by its two field names
   /\ \A T \in AssetNames(L) :                       \* a field name means one thing per type
         \A p, q \in FieldsOf(L, T) : p[1] = q[1] => p = q
   /\ \A T \in AssetNames(L) :
